@@ -464,7 +464,7 @@ def vssRecv3 (G : Grp) (st : VssSt) (I : Inbox) : Except Err (VssSt × Inbox × 
 /-- `Reconstruct`, first step: publish the own share -/
 def vssRec1 (st : VssSt) : VssSt × List Op × Status :=
   if st.i ≠ st.dealer then
-    if st.sigma_i ≠ 0 ∧ st.tau_i ≠ 0 then (st, [.bc none st.sigma_i, .bc none st.tau_i], .run)
+    if st.sigma_i ≠ 0 ∨ st.tau_i ≠ 0 then (st, [.bc none st.sigma_i, .bc none st.tau_i], .run)
     else ({ st with recRet := some false }, [], .ret false)
   else (st, [], .run)
 
